@@ -53,9 +53,12 @@ def segments(trace: tuple) -> list[list]:
     return segs
 
 
+RC_EXCLUDE = ("_process_with_event", "process", "_task_callback", "run_one_queue")
+
+
 def pair_rule(ctx: Ctx, rule: str) -> None:
     f = ctx.func(f"{C.RUNNER}._run_consumer")
-    g = ctx.cfg(f)
+    g = ctx.icfg(f, exclude=RC_EXCLUDE)
     trs = flow.traces(g, run_consumer_symbols(ctx, f, g), loop_bound=2)
     segs = {tuple(s) for t in trs for s in segments(t)}
     ctx.floor(rule, len(segs), 2, "distinct receive-to-receive segments of the consume loop")
@@ -122,7 +125,8 @@ def pair_rule(ctx: Ctx, rule: str) -> None:
 
 def own_rule(ctx: Ctx, rule: str) -> None:
     allowed_limiter = {f"{C.RUNNER}.__init__", f"{C.RUNNER}._run_consumer", f"{C.RUNNER}._task_callback", f"{C.RUNNER}.max_tasks_hit",
-                       f"{C.RUNNER}._process_with_event"}
+                       f"{C.RUNNER}._process_with_event"} | {h.qualname for h in C.helper_callees(ctx, ctx.func(f"{C.RUNNER}._run_consumer"))} \
+        | {h.qualname for h in C.helper_callees(ctx, ctx.func(f"{C.RUNNER}._task_callback"))} | {h.qualname for h in C.helper_callees(ctx, ctx.func(f"{C.RUNNER}.max_tasks_hit"))}
     n_sites = 0
     for fn in ctx.prog.iter_functions():
         for a in ast.walk(fn.node):
@@ -141,7 +145,8 @@ def own_rule(ctx: Ctx, rule: str) -> None:
                 ctx.check(fn.qualname == f"{C.RUNNER}._process_with_event", rule, fn, f"self.process(...) in {fn.short()}", "process() started only by _process_with_event",
                           f"{fn.short()} calls process() directly, outside the permit-holding task", node=a, instance=f"process in {fn.short()}")
             if isinstance(a, ast.Call) and isinstance(a.func, ast.Attribute) and a.func.attr == "_process_with_event":
-                ctx.check(fn.qualname == f"{C.RUNNER}._run_consumer", rule, fn, f"_process_with_event(...) in {fn.short()}", "spawned only by the consume loop",
+                rcf_ = ctx.func(f"{C.RUNNER}._run_consumer")
+                ctx.check(fn.qualname == f"{C.RUNNER}._run_consumer" or fn in C.helper_callees(ctx, rcf_), rule, fn, f"_process_with_event(...) in {fn.short()}", "spawned only by the consume loop",
                           f"{fn.short()} starts _process_with_event outside the consume loop (no permit held)", node=a, instance=f"_process_with_event in {fn.short()}")
     ctx.floor(rule, n_sites, 4, "uses of _limiter")
     init = ctx.func(f"{C.RUNNER}.__init__")
@@ -166,7 +171,7 @@ def own_rule(ctx: Ctx, rule: str) -> None:
 
 def pause_rule(ctx: Ctx, rule: str) -> None:
     f = ctx.func(f"{C.RUNNER}._run_consumer")
-    g = ctx.cfg(f)
+    g = ctx.icfg(f, exclude=RC_EXCLUDE)
     trs = flow.traces(g, run_consumer_symbols(ctx, f, g), loop_bound=2)
     segs = {tuple(s) for t in trs for s in segments(t)}
     saw_pause = False
